@@ -1478,18 +1478,14 @@ def digit_boundary_lengths(upto):
     return [L for L in out if L == 51 or L >= 55]
 
 
-def rand_aff12(rng, shear=False):
-    """signed permutation x zoom in {1/2,1,2} (optionally times a unit upper-triangular dyadic shear) + quarter-unit
-    translation, as aff12 strings; exactly invertible in binary floating point"""
+def rand_aff12(rng):
+    """signed permutation x zoom in {1/2,1,2} + quarter-unit translation, as aff12 strings: these (and their
+    products) are inverted EXACTLY by np.linalg.inv, so the stream is exact (sheared matrices are not)"""
     perm = list(range(3))
     rng.shuffle(perm)
     m = [[Fraction(0)] * 3 for _ in range(3)]
     for j in range(3):
         m[perm[j]][j] = Fraction(rng.choice([Fraction(1, 2), 1, 2])) * rng.choice([-1, 1])
-    if shear:
-        sh = [[Fraction(1), Fraction(rng.choice([0, 1, -1]), 2), Fraction(0)], [Fraction(0), Fraction(1), Fraction(rng.choice([0, 1]))],
-              [Fraction(0), Fraction(0), Fraction(1)]]
-        m = [[sum(m[i][k] * sh[k][j] for k in range(3)) for j in range(3)] for i in range(3)]
     tr = [Fraction(rng.randint(-32, 32), 4) for _ in range(3)]
     return [enc_frac(m[i][j]) for i in range(3) for j in range(3)] + [enc_frac(x) for x in tr]
 
@@ -1719,7 +1715,7 @@ def cases(rng, tier):
         R = rand_aff12(rng) if i % 12 else None
         ops = []
         for _ in range(rng.choice([0, 1, 1, 2, 2, 3])):
-            ops.append(('w',) if rng.random() < 0.3 else ('a', rand_aff12(rng, shear=(rng.random() < 0.2))))
+            ops.append(('w',) if rng.random() < 0.3 else ('a', rand_aff12(rng)))
         sl = [rand_point(rng, 8) for _ in range(rng.randint(1, 3))]
         out.append(mk_lzaff('l' if i % 3 else 'e', R, ops, rand_geom(rng, simple=(i % 7 == 0)), sl))
     # ---- TCK files larger than the 4 MB buffer through the public API (oracle only)
